@@ -645,8 +645,16 @@ def c24_replay(ctx, idx, case, opts):
             fl = [C24_FILE[f] for f in sorted(changed)]
             rep = {-1: query_changes(repo, ["--level", "-1"] + fl), 0: query_changes(repo, ["--level", "0"] + fl)}
         else:
-            rep = {-1: query_changes(repo, ["--since", "HEAD~1", "--level", "-1"]),
-                   0: query_changes(repo, ["--since", "HEAD~1", "--level", "0"])}
+            rep = {}
+            for lvl in (-1, 0):
+                rep[lvl] = query_changes(repo, ["--since", "HEAD~1", "--level", str(lvl)])
+                # `--since` checks the old revision out and back; where it left the repository is not C24's subject, but the
+                # next query needs the branch: note it, put it back, go on
+                head = git(repo, "rev-parse", "--abbrev-ref", "HEAD").strip()
+                if head != "main":
+                    print("NOTE: plz query changes --since left HEAD at %r (exit status 0); restored" % head, flush=True)
+                    trace.append("query left HEAD at %r" % head)
+                    git(repo, "checkout", "-q", "main")
             st = git(repo, "status", "--porcelain")
             if st.strip():
                 raise vlib.Infra("working tree not clean after plz query changes --since:\n%s" % st)
